@@ -586,12 +586,22 @@ def setup():
     ok, out = build_gen()
     if not ok:
         log("gen failed"); return 1
-    rc, out = coq_make([], timeout=3400)
+    mf = os.path.join(VERIF, "MANIFEST.json")
+    targets = []
+    if os.path.exists(mf):
+        targets = ["theories/Properties/%s.vo" % c["property_id"] for c in json.load(open(mf))["checks"]]
+    rc, out = coq_make(targets, timeout=3400)
     if rc != 0:
         log("coq build failed"); return 1
     bad = 0
     done = set()
+    claimed = set(props.PROPS)
+    mf = os.path.join(VERIF, "MANIFEST.json")
+    if os.path.exists(mf):
+        claimed = set(c["property_id"] for c in json.load(open(mf))["checks"])
     for pid, cfg in sorted(props.PROPS.items()):
+        if pid not in claimed:
+            continue
         for d in cfg["drivers"]:
             if d["name"] not in done:
                 done.add(d["name"])
